@@ -230,3 +230,47 @@ def table_schema_factories():
                 if not callable(fn) or not cands:
                     bad.append('%s.ELEMENT_FROM_STRING[%r]: no class with that tag / not callable' % (m.__name__, tag))
     return [_result('table[element-factories]', bad, n)]
+
+
+def table_validators():
+    """C13: every simple type named by any c_attributes entry of any schema class resolves to a validator (directly or
+    after the 'ns:' split), or is a class with c_value_type -- otherwise valid_instance raises KeyError on valid input"""
+    validate = front.module_obj('saml2_tophat.validate')
+    bad, n = [], 0
+    for c in schema_classes():
+        for key, spec in c.c_attributes.items():
+            t = spec[1]
+            n += 1
+            if isinstance(t, str):
+                tt = t
+                if tt not in validate.VALIDATOR:
+                    parts = tt.split(':')
+                    if len(parts) == 2:
+                        tt = parts[1]
+                    elif tt == '':
+                        tt = 'string'
+                if tt not in validate.VALIDATOR:
+                    bad.append('%s.%s attribute %s: type %r has no validator' % (c.__module__, c.__name__, spec[0], t))
+            elif isinstance(t, type):
+                if not hasattr(t, 'c_value_type'):
+                    bad.append('%s.%s attribute %s: class type without c_value_type' % (c.__module__, c.__name__, spec[0]))
+            else:
+                bad.append('%s.%s attribute %s: unusable type %r' % (c.__module__, c.__name__, spec[0], t))
+        vt = getattr(c, 'c_value_type', None)
+        if vt:
+            for k in ('base', 'member'):
+                if k in vt and vt[k] != 'list':
+                    n += 1
+                    tt = vt[k]
+                    if tt not in validate.VALIDATOR and tt.split(':')[-1] not in validate.VALIDATOR:
+                        bad.append('%s.%s text value type %r has no validator' % (c.__module__, c.__name__, tt))
+    # the checked kinds map to validators that really check them
+    want = {'dateTime': 'valid_date_time', 'boolean': 'valid_boolean', 'integer': 'valid_integer',
+            'nonNegativeInteger': 'valid_non_negative_integer', 'positiveInteger': 'valid_positive_integer',
+            'unsignedShort': 'valid_unsigned_short', 'unsignedByte': 'valid_unsigned_byte', 'duration': 'valid_duration'}
+    for k, fn in want.items():
+        n += 1
+        got = validate.VALIDATOR.get(k)
+        if got is None or got.__name__ != fn:
+            bad.append('VALIDATOR[%r] is %s, expected %s' % (k, getattr(got, '__name__', got), fn))
+    return [_result('table[VALIDATOR-covers-declared-types]', bad, n)]
